@@ -36,15 +36,15 @@ using std::logic_error;
 namespace Tins {
 
 IPv4Range operator/(const IPv4Address& addr, int mask) {
-    if (mask > 32) {
-        throw logic_error("Prefix length cannot exceed 32");
+    if (mask < 0 || mask > 32) {
+        throw logic_error("Prefix length cannot be negative or exceed 32");
     }
     return IPv4Range::from_mask(addr, IPv4Address::from_prefix_length(mask));
 }
 
 IPv6Range operator/(const IPv6Address& addr, int mask) {
-    if (mask > 128) {
-        throw logic_error("Prefix length cannot exceed 128");
+    if (mask < 0 || mask > 128) {
+        throw logic_error("Prefix length cannot be negative or exceed 128");
     }
     return IPv6Range::from_mask(addr, IPv6Address::from_prefix_length(mask));
 }
